@@ -5,9 +5,11 @@ pub mod c05;
 pub mod c06;
 pub mod c07;
 pub mod c08;
+pub mod c09;
+pub mod c10;
 pub mod c14;
 pub mod recv;
 
 pub fn all() -> Vec<PropDef> {
-    vec![c05::def(), c06::def(), c07::def(), c08::def(), c14::def()]
+    vec![c05::def(), c06::def(), c07::def(), c08::def(), c09::def(), c10::def(), c14::def()]
 }
